@@ -651,14 +651,35 @@ class SrvAdapter:
                         me._feed(sub['t'], f)
                 elif sub['act'] == 'EioLost':
                     me._lose(sub['t'], sub['reason'])
-        self.wait_script = script
         if self.is_async:
             return self._do_call_async(a, script)
+        orig_send = sio.eio.send
+        if a.get('early'):
+            # the client answers at once: the ACK (or the loss) is processed
+            # by another thread before call() has started to wait
+            fired = []
+
+            def send(*x, **k):
+                r = orig_send(*x, **k)
+                if not fired:
+                    fired.append(1)
+                    script()
+                return r
+            sio.eio.send = send
+
+            def late():
+                if not fired:          # nothing was sent: nobody to answer
+                    fired.append(1)
+                    script()
+            self.wait_script = late
+        else:
+            self.wait_script = script
         try:
             r = sio.call(a['ev'], val('v1'), to=self._real_sid(a['sid']),
                          namespace=a['ns'], timeout=1)
         finally:
             self.wait_script = None
+            sio.eio.send = orig_send
         return ['ok'] + self._shape(r)
 
     def _shape(self, r):
@@ -673,14 +694,8 @@ class SrvAdapter:
         steps = a['during']
         me = self
 
-        async def _w():
-            call = asyncio.ensure_future(
-                sio.call(a['ev'], val('v1'), to=me._real_sid(a['sid']),
-                         namespace=a['ns'], timeout=1))
-            # the world moves only while call() is blocked in its wait
-            for _ in range(5):
-                await asyncio.sleep(0)
-            if not call.done():
+        async def world():
+            if True:
                 for st in steps:
                     if st['t'] in me.closed or st['t'] not in me.socks:
                         continue
@@ -693,7 +708,31 @@ class SrvAdapter:
                         await me.socks[st['t']].close(
                             wait=False, abort=True, reason=st['reason'])
                         me._after_lose(st['t'])
-            return await call     # virtual time: an unanswered call times out
+
+        async def _w():
+            orig_send = sio.eio.send
+            fired = []
+            if a.get('early'):
+                async def send(*x, **k):
+                    r = await orig_send(*x, **k)
+                    if not fired:
+                        fired.append(1)
+                        await world()
+                    return r
+                sio.eio.send = send
+            try:
+                call = asyncio.ensure_future(
+                    sio.call(a['ev'], val('v1'), to=me._real_sid(a['sid']),
+                             namespace=a['ns'], timeout=1))
+                # the world moves only while call() is blocked in its wait
+                for _ in range(5):
+                    await asyncio.sleep(0)
+                if not call.done() and not fired:
+                    fired.append(1)
+                    await world()
+                return await call     # virtual time: unanswered = time-out
+            finally:
+                sio.eio.send = orig_send
         self.wait_script = None
         r = self._run(_w())
         return ['ok'] + self._shape(r)
